@@ -127,7 +127,7 @@ VarK == [k |-> "var", n |-> "k"]
 VarV == [k |-> "var", n |-> "v"]
 \* range loops with an empty body count as simple statements (size 1): sequences of loops at the smallest bound
 \* (two loops over non-addressable arrays in one block need two distinct generated temporaries)
-EmptyRanges == {RangeHdr("array", "call", "def", "def"), RangeHdr("slice", "call", "def", "def"), RangeHdr("array", "var", "def", "none")}
+EmptyRanges == {RangeHdr("array", "call", "def", "def"), RangeHdr("slice", "call", "def", "def"), RangeHdr("array", "var", "def", "none"), RangeHdr("slice", "var", "asg", "idx")}
 ARange == [simple |-> {Y(VarK), Y(VarV), Mut("sset", 2), Mut("sapp", 0), Mut("strunc", 0), Mut("aset", 2)} \cup EmptyRanges,
            inits |-> {None}, posts |-> {None}, conds |-> {T0}, ifinits |-> {None},
            kinds |-> {"range", "if"}, jumps |-> {"break", "continue"}, ranges |-> Ranges]
